@@ -117,6 +117,25 @@ func checkC12(c C12Case, o *Obs) (err error) {
 	if len(got) != len(c.Dst)+len(src) || !bytes.Equal(got[:len(c.Dst)], c.Dst) || !bytes.Equal(got[len(c.Dst):], want) {
 		return fmt.Errorf("ReverseComplement(dst=%q, %q) = %q, want dst followed by %q", []byte(c.Dst), src, got, want)
 	}
+	// dst and src are the same slice (append a sequence's own reverse complement to it, as in
+	// s = append(s, s...)): the written region lies behind src, so nothing that is still to be
+	// read is overwritten, with and without room to spare
+	if len(src) > 0 {
+		for _, room := range []int{0, 2 * len(src)} {
+			self := make([]byte, len(src), len(src)+room)
+			copy(self, src)
+			var both []byte
+			if p := catch(func() { both = sequtil.ReverseComplement(self, self) }); p != nil {
+				return fmt.Errorf("ReverseComplement(s, s) with s=%q (spare capacity %d) panicked: %v", src, room, p)
+			}
+			if !bytes.Equal(self, src) {
+				return fmt.Errorf("ReverseComplement(s, s) modified s: %q -> %q", src, self)
+			}
+			if len(both) != 2*len(src) || !bytes.Equal(both[:len(src)], src) || !bytes.Equal(both[len(src):], want) {
+				return fmt.Errorf("ReverseComplement(s, s) with s=%q (spare capacity %d) = %q, want s followed by %q", src, room, both, want)
+			}
+		}
+	}
 	// the result belongs to the caller: scribbling on it must not influence later calls
 	resultCopy := bytes.Clone(got)
 	for i := range got {
